@@ -593,6 +593,44 @@ def check_writer_values(ctx):
                'the value handed to %s is written into the document unchanged, exactly once, on every path' % fname, '; '.join(sorted(set(problems))[:3]))
 
 
+def check_values_kept(ctx):
+    """what add_species / add_parameter wrote stays in the document: no other function of the writer sets or unsets a value, an
+    initial amount or an initial concentration afterwards (a rule on a parameter makes it non-constant; its value attribute remains
+    the value the model uses until the rule fires, and the initial value of a rate rule)"""
+    smod = ctx.prog.mod('sbmlutil')
+    owners = {'setValue': 'add_parameter', 'unsetValue': None, 'setInitialConcentration': 'add_species', 'setInitialAmount': 'add_species',
+              'unsetInitialConcentration': None, 'unsetInitialAmount': None}
+    problems = []
+    for g_ in [x for x in smod.tree.body if isinstance(x, ast.FunctionDef)]:
+        if g_.name.startswith('import_') or g_.name in ('renameSIds', 'renameSId'):
+            continue
+        for c_ in ast.walk(g_):
+            if isinstance(c_, ast.Call) and isinstance(c_.func, ast.Attribute) and c_.func.attr in owners and owners[c_.func.attr] != g_.name:
+                problems.append('%s() calls %s (line %d)' % (g_.name, src(c_)[:50], c_.lineno))
+    f = c14.get_func(ctx, 'add_parameter')
+    ctx.ob('R12.3-forwarding', 'values-kept', not problems, ctx.loc('sbmlutil', f),
+           'the values written by add_parameter / add_species are not set again or removed by another function of the writer', '; '.join(problems))
+
+
+def check_species_attributes(ctx):
+    """Every bioscrape species is an ordinary SBML species - changed by the reactions it takes part in.  The attributes that say so
+    (boundaryCondition = false, constant = false) are set once, in add_species; no other function of the writer marks a species as a
+    boundary or constant species (the reader, like any SBML tool, would then leave it out of the stoichiometry)."""
+    smod = ctx.prog.mod('sbmlutil')
+    problems = []
+    n_calls = 0
+    for g_ in [x for x in smod.tree.body if isinstance(x, ast.FunctionDef)]:
+        for c_ in ast.walk(g_):
+            if isinstance(c_, ast.Call) and isinstance(c_.func, ast.Attribute) and c_.func.attr == 'setBoundaryCondition':
+                n_calls += 1
+                arg = c_.args[0] if c_.args else None
+                if g_.name != 'add_species' or not (isinstance(arg, ast.Constant) and arg.value is False):
+                    problems.append('%s() calls %s (line %d)' % (g_.name, src(c_)[:60], c_.lineno))
+    f = c14.get_func(ctx, 'add_species')
+    ctx.ob('R12.3-forwarding', 'species-attributes', not problems and n_calls >= 1, ctx.loc('sbmlutil', f),
+           'a species is exported as an ordinary (non-boundary) species: boundaryCondition is set once, to false, in add_species', '; '.join(problems))
+
+
 def check_fresh_containers(ctx):
     """every reaction / rule / species read from a document gets its own dictionaries: no function of the SBML module fills a container
     that outlives the call (a mutable default argument that the body stores into is created once, at import time)"""
@@ -672,6 +710,8 @@ def check_language(ctx):
 def check(ctx):
     for m in ('sbmlutil', 'types', 'types.pxd'):
         ctx.prog.mod(m)
+    c14.check_printer_language(ctx, 'R12.5-formula-language', 'import_sbml_reactions', 'reader-printer/kinetic-law')
+    c14.check_printer_language(ctx, 'R12.5-formula-language', 'import_sbml_rules', 'reader-printer/rule')
     fw, far = check_keys(ctx)
     check_str_wrapped(ctx, fw, far)
     check_exhaustive(ctx, fw, far)
@@ -679,6 +719,8 @@ def check(ctx):
     check_determinism(ctx)
     check_language(ctx)
     check_writer_values(ctx)
+    check_values_kept(ctx)
+    check_species_attributes(ctx)
     ctx.floor("R12.5-formula-language", 22)
     # "the same species and initial values, the same parameter values": the reader takes every species' initial value and every
     # parameter's value attribute, whatever else the document says about them (C13 R13.5) - re-emitted here
